@@ -238,6 +238,16 @@ func chanKey[T any](ch <-chan T) interface{} { return ch }
 
 // ---------------------------------------------------------------- timers, contexts
 
+// Sleep replaces time.Sleep in retry/poll loops: inside a controlled run a sleeping thread is only
+// scheduled when no other thread can run (waiting is made visible instead of spinning).
+func Sleep(d time.Duration) {
+	if s, t := current(); t != nil {
+		s.yield(t, &op{kind: "Sleep", sleeper: true})
+		return
+	}
+	time.Sleep(d)
+}
+
 // Timer mirrors the part of *time.Timer that callers of AfterFunc use.
 type Timer struct {
 	real *time.Timer
